@@ -13,10 +13,25 @@ From LTV.C14 Require Import ParamsGen Model.
 Import ListNotations.
 Local Open Scope N_scope.
 
-(* enum dht_keys *)
-Definition k_a_id : nat := 0.   Definition k_q : nat := 7.      Definition k_r_id : nat := 8.
-Definition k_r_nodes : nat := 9. Definition k_r_values : nat := 11.
-Definition k_t : nat := 12.     Definition k_y : nat := 14.
+(* enum dht_keys / ext_pex_keys: the index of a key is looked up BY ITS KEY STRING in the key table that is
+   re-extracted from the sources on every run, so adding or reordering keys does not invalidate the model
+   (an absent key maps to an index outside every entry array, i.e. "never present") *)
+Fixpoint key_index (tbl : ktable) (k : bytes) : option nat :=
+  match tbl with
+  | [] => None
+  | (i, k') :: t => if bytes_eqb k k' then Some (N.to_nat i) else key_index t k
+  end.
+Definition key_idx (tbl : ktable) (k : bytes) : nat :=
+  match key_index tbl k with Some i => i | None => 1000000 end.
+
+Definition k_a_id : nat := key_idx dht [97;58;58;105;100;42;83].                       (* "a::id*S" *)
+Definition k_q : nat := key_idx dht [113;42;83].                                        (* "q*S" *)
+Definition k_r_id : nat := key_idx dht [114;58;58;105;100;42;83].                       (* "r::id*S" *)
+Definition k_r_nodes : nat := key_idx dht [114;58;58;110;111;100;101;115;42;83].        (* "r::nodes*S" *)
+Definition k_r_values : nat := key_idx dht [114;58;58;118;97;108;117;101;115;42;76].    (* "r::values*L" *)
+Definition k_t : nat := key_idx dht [116;42;83].                                        (* "t*S" *)
+Definition k_y : nat := key_idx dht [121;42;83].                                        (* "y*S" *)
+Definition k_pex_added : nat := key_idx ext_pex [97;100;100;101;100;42;83].             (* "added*S" *)
 
 (* message[key].is_raw_string() ? as_raw_string() *)
 Definition ent_raw_string (e : entries) (k : nat) : option bytes :=
@@ -149,7 +164,7 @@ Definition dht_reply_nodes (dgram : bytes) : option (pres (list (N * addr))) :=
    Some state otherwise *)
 Definition pex_message (payload : bytes) : res (option bytes) :=
   match sm_read ext_pex payload with
-  | Ok e rest => Ok (ent_raw_string e 0) rest
+  | Ok e rest => Ok (ent_raw_string e k_pex_added) rest
   | Reject => Reject | Fault => Fault | OutOfFuel => OutOfFuel
   end.
 
@@ -330,3 +345,46 @@ Definition http_step (ih : bytes) (event : N) (h : hstate) (body : bytes) : hsta
 Definition http_two_families (ih : bytes) (event : N) (bodies : list bytes) : hstate * list hevent :=
   fold_left (fun st b => let '(h, evs) := st in let '(h', e) := http_step ih event h b in (h', evs ++ [e]))
             bodies (mkHs tstate0 true false [], []).
+
+(* ------------------------------------------------------------------ a find_node reply matched to its transaction
+   DhtServer::process_response -> parse_find_node_reply -> DhtSearch::add_contact / find_node_next.
+   The search holds the responder (contacted, now good) plus the contacts taken from the compact `nodes` string:
+   every whole 26-byte record whose id is not OUR OWN id, keyed by id (std::map ordered by XOR distance to the
+   target: equal keys = equal ids, the first record of an id wins).  find_node_next then queries the closest
+   uncontacted ones, at most `search_concurrency` at a time (DhtSearch::m_concurrency). *)
+Definition search_concurrency : nat := 3.
+
+Fixpoint contact_insert (target : N) (c : N * addr) (l : list (N * addr)) : list (N * addr) :=
+  match l with
+  | [] => [c]
+  | d :: l' =>
+      if fst c =? fst d then l
+      else if N.lxor (fst c) target <? N.lxor (fst d) target then c :: l
+      else d :: contact_insert target c l'
+  end.
+
+(* the new contacts of the search, closest first *)
+Definition find_node_contacts (own target resp : N) (recs : list (N * addr)) : list (N * addr) :=
+  fold_left (fun acc r => if (fst r =? own) || (fst r =? resp) then acc else contact_insert target r acc) recs [].
+
+Inductive fn_out :=
+| FnIgnored                                  (* no transaction for (source, t), or r.id is not the node we asked *)
+| FnFailed                                   (* reply without a `nodes` string: bencode_error, node marked inactive *)
+| FnQueries (l : list (N * addr))            (* find_node queries sent to these contacts *)
+| FnGetPeers                                 (* announce: search complete, get_peers sent to the responder *)
+| FnFault.
+
+Definition dht_find_node_reply (announce matched : bool) (own target resp : N) (nodes : option bytes) : fn_out :=
+  if negb matched then FnIgnored
+  else match nodes with
+       | None => FnFailed
+       | Some b =>
+           match parse_compact_nodes b with
+           | POk recs =>
+               match firstn search_concurrency (find_node_contacts own target resp recs) with
+               | [] => if announce then FnGetPeers else FnQueries []
+               | q => FnQueries q
+               end
+           | _ => FnFault
+           end
+       end.
